@@ -16,8 +16,9 @@ Definition h_D12 : list op := map (fun i => SetTimer k1 (Z.of_nat i)) (seq 1 8) 
 (* D13: timers 10..50, 40-byte cache; advance 10; set 60; advance 45 fires 20,30 only; then 60,40,50 *)
 Definition h_D13 : list op :=
   map (fun t => SetTimer k1 t) [10; 20; 30; 40; 50]%Z ++ [Advance 0 10%Z; SetTimer k1 60%Z; Advance 0 45%Z; Advance 0 maxt].
-(* pre-1970: the timer at -5 ns is encoded as 2^64-5 and sorts after the one at +5 ns: nothing fires at watermark 0 *)
-Definition h_pre_epoch : list op := [SetTimer k1 (-5)%Z; SetTimer k1 5%Z; Advance 0 0%Z; Advance 0 maxt].
+(* pre-1970 (the watermark first goes back to -10 ns, else the guard ignores the timer): the timer at -5 ns is encoded as
+   2^64-5 and sorts after the one at +5 ns: nothing fires at watermark 0 *)
+Definition h_pre_epoch : list op := [Advance 0 (-10)%Z; SetTimer k1 (-5)%Z; SetTimer k1 5%Z; Advance 0 0%Z; Advance 0 maxt].
 
 Lemma D12_witness :
   model_out quirks_D12 40 h_D12 = [map (fun i => (k1, Z.of_nat i)) (seq 1 7); []] /\
@@ -33,6 +34,6 @@ Proof. vm_compute. repeat split. Qed.
 
 Lemma pre_epoch_witness :
   forallb op_ok h_pre_epoch = false /\
-  model_out quirks_now 1000 h_pre_epoch = [[]; [(k1, 5%Z); (k1, (-5)%Z)]] /\
-  spec_out h_pre_epoch = [[(k1, (-5)%Z)]; [(k1, 5%Z)]].
+  model_out quirks_now 1000 h_pre_epoch = [[]; []; [(k1, 5%Z); (k1, (-5)%Z)]] /\
+  spec_out h_pre_epoch = [[]; [(k1, (-5)%Z)]; [(k1, 5%Z)]].
 Proof. vm_compute. repeat split. Qed.
